@@ -428,7 +428,7 @@ def qos_check(ctx):
 SESSION_PROFILES = {
     "C13": dict(weights=dict(connect=6, subscribe=2, publish=4, disconnect=2, netdrop=2, takeover=2, bad_connect=10, ackall=1), wills=0.2,
                 auth=["allow", "allow", "none", "acl"], maxqos=[2, 2, 1], retain_avail=[1, 1, 0], minproto=[3, 3, 4]),
-    "C14": dict(weights=dict(connect=8, subscribe=6, publish=8, disconnect=2, netdrop=3, takeover=6, ackall=1, tick_clients=1), sei=[-1, 0, 30, 300], wills=0.0),
+    "C14": dict(weights=dict(connect=8, subscribe=6, publish=8, disconnect=2, netdrop=3, takeover=6, ackall=1, tick_clients=1, clean_v3_takeover=1.5), sei=[-1, 0, 30, 300], wills=0.0),
     "C15": dict(weights=dict(connect=8, subscribe=6, publish=6, disconnect=4, netdrop=4, takeover=1, tick_clients=8, expiry_round=2, disc_sei=3, ackall=1), sei=[-1, 0, 30, 100, 300],
                 max_sess_expiry=[-1, -1, 50, 200]),
     "C16": dict(weights=dict(connect=8, subscribe=2, publish=2, disconnect=4, netdrop=5, disc04=3, proto_err=2, takeover=4, tick_wills=8, tick_clients=2, expiry_round=3, ackall=1),
